@@ -6,7 +6,7 @@ CONSTANTS
   OriginFromSuper = FALSE
   AllowModifyBusy = FALSE
   Parent <- Chain3
-  Mode = "shape"
+  Mode = "dyn"
   QSels = {{}}
   Vias = {"api"}
   InstKeys = {}
